@@ -153,6 +153,19 @@ def ids(l: list) -> str:
     return '.'.join(str(x) for x in l) if l else '-'
 
 
+def resolve_attr(case: dict) -> dict:
+    """A corpus case may ask for an attribute block of a given packed length (`attr.target`) instead of
+    spelling the communities/filler out: the spec is then found here, on the real encoder."""
+    spec = case['attr']
+    if 'target' not in spec:
+        return spec
+    cfg, n, neg, _ = get_session(tuple(case['fams']), bool(case['addpath']), case['M'], bool(case.get('ibgp', 0)))
+    got = tune_attr(cfg, n, neg, spec.get('base', ''), spec['target'], spec.get('comm_share', 1.0))
+    if got is None:
+        raise RuntimeError(f'rig: cannot build an attribute block of {spec["target"]} bytes')
+    return got
+
+
 class Built:
     """The real objects of one case."""
 
@@ -161,7 +174,7 @@ class Built:
         self.M = case['M']
         self.addpath = bool(case['addpath'])
         self.cfg, self.neighbor, self.neg, self.negin = get_session(tuple(case['fams']), self.addpath, self.M, bool(case.get('ibgp', 0)))
-        self.attrs = build_attrs(self.cfg, self.neighbor, case['attr'])
+        self.attrs = build_attrs(self.cfg, self.neighbor, resolve_attr(case))
         self.attr_def = len(self.attrs.pack_attribute(self.neg, True))
         self.attr_nodef = len(self.attrs.pack_attribute(self.neg, False))
         nhs: dict[str, int] = {}
@@ -421,7 +434,7 @@ def fits_alone(b: Built) -> dict:
     out = {}
     for nid, (fam, mask, value, pathid), nlri, nh, _ in b.anns:
         z = len(wire_nlri(fam, mask, value, pathid, b.neg.addpath.send(*FAMS[fam])))
-        if fam == 1 or fam == 2:
+        if fam == 1:  # only ipv4 unicast travels in the classic fields (RFC 4760); the rest is MP framed
             out[nid] = 23 + b.attr_def + z <= b.M
         else:
             p = 5 + len(nh.pack_ip()) + z
@@ -429,7 +442,7 @@ def fits_alone(b: Built) -> dict:
     for nid, (fam, mask, value, pathid), nlri, _, _ in b.wds:
         z = len(wire_nlri(fam, mask, value, pathid, b.neg.addpath.send(*FAMS[fam])))
         # lenient: counted as fitting only if it fits next to the full attribute block as well
-        if fam == 1 or fam == 2:
+        if fam == 1:
             out[nid] = 23 + b.attr_def + z <= b.M
         else:
             p = 3 + z
